@@ -131,10 +131,13 @@ theorem foldl_removeTx_env (vs : List Tx) (s : Pool) : SameEnv s (vs.foldl (fun 
 
 /-- what an invariant needs in order to survive `add` -/
 structure AddClosed (I : Pool → Prop) : Prop extends Closed I where
-  replace : ∀ (s : Pool) (t : Tx) (all' : List Tx), I s →
+  replace : ∀ (s : Pool) (t : Tx), I s →
     s.cnonce t.sender ≤ t.nonce → Payable (s.balance t.sender) s.maxGas t →
     (s.pending t.sender).overlaps t = true → ((s.pending t.sender).add t s.cfg.priceBump).1 = true →
-    I { s with pending := upd s.pending t.sender ((s.pending t.sender).add t s.cfg.priceBump).2.2, all := all' }
+    I { s with pending := upd s.pending t.sender ((s.pending t.sender).add t s.cfg.priceBump).2.2,
+               all := insertAll t (match ((s.pending t.sender).add t s.cfg.priceBump).2.1 with
+                 | some o => delAll o s.all
+                 | none => s.all) }
   enqueue : ∀ (s : Pool) (t : Tx), I s → s.cnonce t.sender ≤ t.nonce → (s.pending t.sender).overlaps t = false →
     I (s.enqueueTx t).2.2
   locals : ∀ (s : Pool) (L : List Addr), I s → I { s with locals := L }
@@ -175,7 +178,7 @@ theorem add_pres (hc : AddClosed I) (s : Pool) (t : Tx) (loc : Bool) (sh : Shape
             by_cases hins : (!((s1.pending t.sender).add t s1.cfg.priceBump).1) = true
             · rw [if_pos hins]; exact h1
             · rw [if_neg hins]
-              apply hc.replace s1 t _ h1 hcn hpay hov
+              apply hc.replace s1 t h1 hcn hpay hov
               simpa using hins
           · rw [if_neg hov]
             by_cases hins : (!(s1.enqueueTx t).2.1) = true
@@ -245,8 +248,10 @@ theorem replace_weak {s : Pool} {t : Tx} (all' : List Tx) (h : WeakAll s)
 
 theorem addClosed_phase : AddClosed Phase :=
   { closed_phase with
-    replace := fun s t all' h hcn hpay hov hins => by
-      have hr := replace_weak all' h.1 hov hins
+    replace := fun s t h hcn hpay hov hins => by
+      have hr := replace_weak (insertAll t (match ((s.pending t.sender).add t s.cfg.priceBump).2.1 with
+                 | some o => delAll o s.all
+                 | none => s.all)) h.1 hov hins
       refine ⟨hr.1, h.2.touch hr.2 ?_⟩
       have hw := h.1.1 t.sender
       have hspec := (TxL.add_spec (s.pending t.sender) t s.cfg.priceBump hw.psorted).1 hins
@@ -268,8 +273,10 @@ theorem addClosed_phase : AddClosed Phase :=
 
 theorem addClosed_good : AddClosed Good :=
   { closed_good with
-    replace := fun s t all' h hcn hpay hov hins => by
-      have hr := replace_weak all' h.weakAll hov hins
+    replace := fun s t h hcn hpay hov hins => by
+      have hr := replace_weak (insertAll t (match ((s.pending t.sender).add t s.cfg.priceBump).2.1 with
+                 | some o => delAll o s.all
+                 | none => s.all)) h.weakAll hov hins
       have hs := h.1 t.sender
       apply h.touch hr.2 _ (hr.1.2 t.sender)
       have hitems : (upd s.pending t.sender ((s.pending t.sender).add t s.cfg.priceBump).2.2 t.sender).items
@@ -309,10 +316,11 @@ theorem addTx_pres (hc : AddClosed I) (s : Pool) (t : Tx) (loc : Bool) (sh : Sha
   have ha := add_pres hc s t (loc && !s.cfg.noLocals) sh vs h
   unfold Pool.addTx
   simp only
+  generalize s.add t (loc && !s.cfg.noLocals) sh vs = r at ha ⊢
   split
   · exact ha
   · split
-    · exact promoteExecutables_pres hc.toClosed (s.add t (loc && !s.cfg.noLocals) sh vs).2.2 (some [t.sender]) sl qo ha
+    · exact promoteExecutables_pres hc.toClosed r.2.2 (some [t.sender]) sl qo ha
     · exact ha
 
 theorem addMany_pres (hc : AddClosed I) (loc : Bool) : ∀ (ts : List Tx) (vs : List (List Tx)) (s : Pool), I s →
@@ -324,16 +332,19 @@ theorem addMany_pres (hc : AddClosed I) (loc : Bool) : ∀ (ts : List Tx) (vs : 
     intro vs s h
     have ha := add_pres hc s t loc .wellformed (vs.headD []) h
     unfold Pool.addMany
-    exact ih vs.tail (s.add t loc .wellformed (vs.headD [])).2.2 ha
+    simp only
+    generalize s.add t loc .wellformed (vs.headD []) = r at ha ⊢
+    exact ih vs.tail r.2.2 ha
 
 theorem addTxs_pres (hc : AddClosed I) (s : Pool) (ts : List Tx) (loc : Bool) (vs : List (List Tx)) (sl qo : List Addr)
     (h : I s) : I (s.addTxs ts loc vs sl qo).2 := by
   have ha := addMany_pres hc loc ts vs s h
   unfold Pool.addTxs
   simp only
+  generalize s.addMany loc ts vs = r at ha ⊢
   split
   · exact ha
-  · exact promoteExecutables_pres hc.toClosed (s.addMany loc ts vs).2.2 (some (s.addMany loc ts vs).2.1.eraseDups) sl qo ha
+  · exact promoteExecutables_pres hc.toClosed r.2.2 (some r.2.1.eraseDups) sl qo ha
 
 theorem setGasPrice_good (s : Pool) (p : Nat) (h : Good s) : Good (s.setGasPrice p) := by
   unfold Pool.setGasPrice
